@@ -1,2 +1,71 @@
-(* placeholder until RepeatProps.v is written *)
-From NV Require Import InputQueue.
+(* Properties_C09.v -- C09: repeat, macro and count.  Statements only; every proof is `exact <lemma>`.
+   The model (coq/InputQueue.v) is the input side of term.c / vi.c for keys of any type K and ANY command
+   interpreter `exec` that obtains its keys by reading a prefix of the pending input (it is handed the
+   stream ibuf ++ terminal input and says how many keys it read: prefix_consuming by construction) and
+   answers with a request: nothing, "I was a change command", "repeat" (N.), or "run these keys" (N@r).
+   `run` is the loop of vi() until the input is used up; None = a push did not fit into ibuf (pending
+   input above 4 KiB: outside the property's quantifier) or out of fuel. *)
+From Coq Require Import List NArith ZArith Bool Arith.
+From NV Require Import GenConsts InputQueue RepeatProps.
+Import ListNotations.
+Local Open Scope nat_scope.
+
+(* after a change command the repeat buffer holds exactly the keys that command read (count and
+   register prefix included: they are read after the record was cut), if shorter than the buffers *)
+Theorem C09_record_faithful : forall K E (exec : E -> list K -> E * nat * act K) (s : st K E) e1 k,
+  exec (ed s) (stream (q s)) = (e1, k, AChange) -> k <= length (stream (q s)) -> S k < REPSZ -> k <= ICMD ->
+  rep (step exec s) = firstn k (stream (q s)) /\ ed (step exec s) = e1 /\
+  stream (q (step exec s)) = skipn k (stream (q s)).
+Proof. exact record_faithful. Qed.
+Print Assumptions C09_record_faithful.
+
+(* `N.` : the rest of the session ends exactly as if the recorded keys had been typed at the terminal
+   max(1,N) times in place of `N.` -- in EVERY state of the queue (also inside a running macro), provided
+   the push is not clipped (`fits`: the keys pushed since the queue was last empty total at most IBUFSZ) *)
+Theorem C09_dot_is_retyping : forall K E (exec : E -> list K -> E * nat * act K) (s : st K E) e1 k n fuel r,
+  exec (ed s) (stream (q s)) = (e1, k, ADot n) -> fits exec s = true ->
+  run exec fuel (step exec s) = Some r ->
+  run exec fuel (retyped K E s e1 k (rpt K (Nat.max 1 n) (rep s))) = Some r.
+Proof. exact dot_is_retyping. Qed.
+Print Assumptions C09_dot_is_retyping.
+
+(* `N@r` : as if the register's contents had been typed max(1,N) times *)
+Theorem C09_exec_is_typing : forall K E (exec : E -> list K -> E * nat * act K) (s : st K E) e1 k b n fuel r,
+  exec (ed s) (stream (q s)) = (e1, k, APush b n) -> fits exec s = true ->
+  run exec fuel (step exec s) = Some r ->
+  run exec fuel (retyped K E s e1 k (rpt K (Nat.max 1 n) b)) = Some r.
+Proof. exact exec_is_typing. Qed.
+Print Assumptions C09_exec_is_typing.
+
+(* the two queues behave as the single stream ibuf ++ terminal input *)
+Theorem C09_queue_is_stream : forall K E (exec : E -> list K -> E * nat * act K) (s : st K E) fuel r,
+  run exec fuel s = Some r ->
+  run exec fuel {| q := {| used := 0; ibuf := []; tin := stream (q s); icmd := [] |}; rep := rep s; ed := ed s |} = Some r.
+Proof. exact queue_is_stream. Qed.
+Print Assumptions C09_queue_is_stream.
+
+(* pushes are clipped to the room left, sizeof(ibuf) - ibuf_cnt, where ibuf_cnt (`filled`) counts the keys
+   pushed since the queue was last empty, read or not: the buffer never exceeds its size, and a push
+   that fits is stored whole in front of the unread keys *)
+Theorem C09_capacity : forall K (qq : tq K) s n, filled qq <= IBUF ->
+  filled (push_n n qq s) <= IBUF /\
+  filled (term_push qq s) = Nat.min (filled qq + length s) IBUF /\
+  (n * length s <= IBUF - filled qq ->
+   ibuf (push_n n qq s) = rpt K n s ++ ibuf qq /\ tin (push_n n qq s) = tin qq /\ used (push_n n qq s) = used qq).
+Proof. intros K qq s n H. split; [now apply push_n_capacity|]. split; [now apply term_push_clip|]. apply push_n_fits. Qed.
+Print Assumptions C09_capacity.
+
+(* the behaviour before /repo d3797a0 / 098bcee (append behind the unread keys) does not have the stream property *)
+Theorem C09_nested_push_refuted :
+  exists (qq : tq nat) (s : list nat),
+    stream (term_push_append qq s) <> s ++ stream qq /\ stream (term_push qq s) = s ++ stream qq.
+Proof. exact append_push_refuted. Qed.
+Print Assumptions C09_nested_push_refuted.
+
+(* non-vacuity: the token instance runs a program with a change, `2.`, a macro containing a nested `.`,
+   and `@@`; what reaches the interpreter is the retyped program *)
+Example C09_nonvacuous :
+  let m := fun r => if (r =? 109)%N then Some [TKeys [119]; TDot 0; TChange [114; 90]]%N else None in
+  tok_run 100 m [TChange [120]; TDot 2; TExec 0 109; TExec 2 64]%N
+  = Some [120; 120; 120; 119; 120; 114; 90; 119; 114; 90; 114; 90; 119; 114; 90; 114; 90]%N.
+Proof. vm_compute. reflexivity. Qed.
